@@ -377,3 +377,37 @@ def shared_state_mutations(mod: Module, func: ast.AST) -> List[Tuple[str, str]]:
                     if d:
                         out.append((f"item store into {d}", " ".join(ast.unparse(n).split())[:100]))
     return out
+
+
+def norm_if(n: ast.If):
+    """(test, body, orelse) with a leading `not` removed by swapping the branches"""
+    test, body, orelse = n.test, n.body, n.orelse
+    while isinstance(test, ast.UnaryOp) and isinstance(test.op, ast.Not) and orelse:
+        test, body, orelse = test.operand, orelse, body
+    return test, body, orelse
+
+
+def expand(func: ast.AST, node: ast.AST, depth: int = 3) -> ast.AST:
+    """copy of `node` in which local names that have exactly ONE definition in `func` (a plain expression) are replaced by that expression"""
+    import copy as _copy
+    defs: Dict[str, List[ast.expr]] = {}
+    for t, v, st in assignments(func, nested=False):
+        if isinstance(t, ast.Name):
+            defs.setdefault(t.id, []).append(v)
+    # names that are loop targets / augmented are not expandable
+    multi = {n.target.id for n in walk_no_nested(func) if isinstance(n, ast.AugAssign) and isinstance(n.target, ast.Name)}
+    for n in walk_no_nested(func):
+        if isinstance(n, ast.For):
+            for x in ast.walk(n.target):
+                if isinstance(x, ast.Name):
+                    multi.add(x.id)
+
+    class X(ast.NodeTransformer):
+        def __init__(self, d):
+            self.d = d
+
+        def visit_Name(self, n):
+            if isinstance(n.ctx, ast.Load) and n.id in defs and len(defs[n.id]) == 1 and n.id not in multi and self.d > 0 and isinstance(defs[n.id][0], (ast.Subscript, ast.Attribute, ast.BinOp, ast.Name, ast.Constant)):
+                return X(self.d - 1).visit(_copy.deepcopy(defs[n.id][0]))
+            return n
+    return X(depth).visit(_copy.deepcopy(node))
